@@ -202,6 +202,17 @@ func (P *Program) RunJob(job *Job) *JobResult {
 					seen[ts] = true
 					if pr.Status != StDiscard {
 						res.Distinct++
+						// non-trivial: the solver decided something on this path (a branch, a concretisation, a verdict)
+						solverDecided := pr.Verdicts > 0
+						for _, d := range pr.Trace {
+							if d.K != DChoice {
+								solverDecided = true
+								break
+							}
+						}
+						if solverDecided {
+							res.DistinctNontrivial++
+						}
 					}
 				}
 				switch pr.Status {
